@@ -226,6 +226,46 @@ def check(P: Project, R: Report) -> None:
                     return True
         return False
 
+    # a "done already" latch: `if self._closed: return` … `self._closed = True` in the exit routine.  The early return is the
+    # second call of the same session's exit only if entering re-arms the latch before it spawns the next child.
+    def latch_flags():
+        out = {}
+        ae_ = meths.get("__aenter__")
+        for s_ in walk_local(ax.node):
+            if isinstance(s_, ast.Assign) and len(s_.targets) == 1 and isinstance(s_.targets[0], ast.Attribute) and isinstance(s_.targets[0].value, ast.Name) and s_.targets[0].value.id == "self" \
+                    and isinstance(s_.value, ast.Constant) and s_.value.value is True:
+                flag = s_.targets[0].attr
+                inl_ = getattr(P, "inliner", None)
+                read_in = {x.split(" into ")[0].split(":")[-1].split(".")[-1] for x in (inl_.inlined if inl_ is not None else [])}  # helpers already read into the exit routine
+                other = [m_.name for m_ in meths.values() if m_ is not ax and m_.name not in ("__init__", "__aenter__") and m_.name not in read_in and any(isinstance(x, ast.Attribute) and x.attr == flag and isinstance(x.ctx, ast.Store) for x in walk_local(m_.node))]
+                if other:
+                    continue  # set elsewhere too: not a latch of this routine
+                rearmed = False
+                if ae_ is not None:
+                    def aev(stmt, st, an, flag=flag):
+                        if isinstance(stmt, ast.Assign) and any(isinstance(t, ast.Attribute) and t.attr == flag and ast.unparse(t.value) == "self" for t in stmt.targets) and isinstance(stmt.value, ast.Constant) and stmt.value.value is False:
+                            return "rearm"
+                        return None
+
+                    def cev(call, st, an):
+                        return "spawn" if call_name(call).endswith("open_process") else None
+
+                    _a, ao = run_paths(ae_.node, event_of=cev, stmt_event_of=aev, fallible=True)
+                    ends_ = [st for st, _n in ao.ret] + list(ao.normal) + [st for st, _t, _n in ao.exc]
+                    spawned = [st for st in ends_ if "spawn" in st.events]
+                    rearmed = bool(spawned) and all("rearm" in st.events and list(st.events).index("rearm") < list(st.events).index("spawn") for st in spawned)
+                out[flag] = rearmed
+        return out
+
+    LATCH = latch_flags()
+
+    def latched(st: PState):
+        """name of a re-armed latch whose being set explains this path, or None; un-re-armed latches are reported"""
+        for fl, ok_ in LATCH.items():
+            if f"self.{fl}" in st.lits:
+                return fl, ok_
+        return None
+
     exits = [("return", st, n) for st, n in xo.ret] + [("falloff", st, ax.node) for st in xo.normal] + [(t, st, n) for st, t, n in xo.exc]
     R.need(exits, "__aexit__ has no exit")
     n_c = 0
@@ -239,6 +279,13 @@ def check(P: Project, R: Report) -> None:
                  f"cancellation raised at `{ast.unparse(node)[:50]}` leaves __aexit__ with terminate events {terms} (kill ladder needs {worst}s): the child keeps running", sample=f"R2 Cancelled at `{ast.unparse(node)[:40]}` → {terms}")
         elif kind in ("return", "falloff"):
             ok = bool(terms) or not_running(st)
+            la_ = latched(st) if not ok else None
+            if la_ is not None:
+                fl_, rearmed_ = la_
+                R.ob("R2", f"an exit skipped under the latch `self.{fl_}` belongs to a session whose exit has run already", rearmed_, where,
+                     f"`self.{fl_}` is set by the first exit and never cleared before __aenter__ spawns the next child: when the same client object is entered again, leaving that second context returns here at once — nothing is closed, the task group is not cancelled, the terminate/kill ladder does not run, and the new child stays alive with its pipes open",
+                     sample=f"R2 latch self.{fl_}: re-armed in __aenter__ before the spawn")
+                continue
             R.ob("R2", "normal exit has terminated the child", ok, where, f"terminate events {terms}; literals {sorted(l[:40] for l in st.lits if 'process' in l)}")
             if kind == "return":
                 rv = ast.unparse(node.value) if node.value is not None else "None"
